@@ -2,6 +2,7 @@ package fakeredis
 
 import (
 	"fmt"
+	"math"
 	"strconv"
 	"strings"
 
@@ -478,6 +479,18 @@ func buildShape(uid, shape string, p *int, leaf *int, depth int) (resp.Value, bo
 		return resp.Simple(lineSafe(tag())), true
 	case 'b':
 		return resp.Bulk(tag() + "\r\n\x00bin"), true
+	case 'I':
+		// integers at the edges of int64 (the decoder's overflow guard must accept all of them)
+		*leaf++
+		ext := []int64{math.MaxInt64, math.MinInt64, math.MaxInt64 - 7, -math.MaxInt64, 9223372036854775800, -9223372036854775800, 1000000000000000000, math.MinInt64 + 8}
+		h := 0
+		for _, ch := range uid {
+			h = h*31 + int(ch)
+		}
+		if h < 0 {
+			h = -h
+		}
+		return resp.Int(ext[(h+*leaf)%len(ext)]), true
 	case 'z':
 		return resp.Bulk(""), true // the empty bulk string: "$0\r\n\r\n"
 	case 'i':
